@@ -346,7 +346,6 @@ func (e *Engine) replayObligation(verifDir, prop string, v *VC, o *Obl) (string,
 	fmt.Fprintf(&b, "solver answers: %s %s\n", o.Solver, o.Out)
 	reproduced := false
 	if o.Status == "refuted" && o.Model != "" {
-		fmt.Fprintf(&b, "\nverifier counterexample (inputs):\n%s\n", modelSummary(o.Model, v.inputs))
 		rep, ok := e.leafReplay(v, o)
 		b.WriteString("\n" + rep)
 		reproduced = ok
